@@ -255,6 +255,11 @@ func (w *World) checkInvariants(ctx sdk.Context, prop string) {
 		if r.ModuleName != banktypes.ModuleName && r.ModuleName != enttypes.ModuleName && r.ModuleName != "stream" {
 			continue
 		}
+		if r.ModuleName == enttypes.ModuleName && w.M != nil && w.M.Ent.DenomChanged {
+			// after governance changed the enterprise denomination the books hold two
+			// denominations and this invariant cannot even be evaluated (known finding of C14)
+			continue
+		}
 		var msg string
 		var broken bool
 		if p, _ := safely(func() { msg, broken = r.Invar(ctx) }); p != "" {
